@@ -23,6 +23,9 @@ type Subscription struct {
 	// vars are the variables of the request that subscribed, events are
 	// resolved with them.
 	vars map[string]interface{}
+
+	// evType is the type of the events, the type of the subscription field.
+	evType Type
 }
 
 // NewSubscription creates a new subscription. It should be called in a
@@ -36,5 +39,7 @@ func NewSubscription(sub Subscriber, field *Field, args map[string]interface{}) 
 }
 
 func (sub *Subscription) prep(root *Root) {
-	sub.field.ConType = root.getFieldType(sub.field.ConType, sub.field.Name)
+	// Kept in the subscription, the field belongs to the executable which
+	// can be resolved again.
+	sub.evType = root.getFieldType(sub.field.ConType, sub.field.Name)
 }
